@@ -9,6 +9,9 @@ mod s_perceive;
 mod s_ff;
 mod s_sd;
 mod s_xyz;
+mod s_history;
+mod s_opt;
+mod s_trace;
 
 fn main() {
     let args: Vec<String> = std::env::args().collect();
@@ -38,10 +41,12 @@ fn main() {
         "perceive" => s_perceive::run(&mut out, seed, &tier),
         "ff" => s_ff::run(&mut out, seed, &tier),
         "sd" => s_sd::run(&mut out, seed, &tier),
+        "trace" => s_trace::run(&mut out, &rest[0]),
+        "opt" => s_opt::run(&mut out, seed, &tier),
+        "history" => s_history::run(&mut out, seed, &tier),
         "xyz-write" => s_xyz::run_write(&mut out, seed, &tier),
         "xyz-read" => s_xyz::run_read(&mut out, seed, &tier),
         other => { eprintln!("unknown stream {}", other); std::process::exit(2); }
     }
-    let _ = rest;
     out.flush();
 }
